@@ -477,10 +477,14 @@ func tail(s string, n int) string {
 }
 
 // blocked: functions of the repository in which goroutines sit in sync.(*Mutex).Lock / Cond.Wait / WaitGroup.Wait
+// (or serve a command that is still alive)
 func blocked(stacks string) []string {
 	var res []string
 	for _, g := range strings.Split(stacks, "\n\n") {
-		if !strings.Contains(g, "sync.(*Mutex).Lock") && !strings.Contains(g, "sync.(*Cond).Wait") && !strings.Contains(g, "sync.(*WaitGroup).Wait") {
+		// an instance goroutine that is still serving a live command (reading its output / waiting for its exit)
+		// is listed too: together with a waiter on its completion latch it shows a command that survived its stop
+		serving := strings.Contains(g, "(*Process).waitForStdOutErr") || strings.Contains(g, "fakecmd.(*Cmd).Wait")
+		if !serving && !strings.Contains(g, "sync.(*Mutex).Lock") && !strings.Contains(g, "sync.(*Cond).Wait") && !strings.Contains(g, "sync.(*WaitGroup).Wait") {
 			continue
 		}
 		ls := strings.Split(g, "\n")
